@@ -114,6 +114,19 @@ REGISTRY["C17"] = dict(
     explanation="Clauses of DESIGN.md §3 C17 on MIR facts of the current tree. NOT decided: that the merged query is the logical intersection for all environments.",
     assumptions=TRUSTED,
 )
+REGISTRY["C05"] = dict(
+    module="c05",
+    level="other",
+    technique="static analysis: provenance rule over every mutation of the serializer's byte buffers (who-may-call + constant classification + byte-set path analysis of the copy loops), unsafe inventory, predicate-sensitive guard analysis of the charset/BOM decision, visibility-filter dominance",
+    claim=(
+        "Encoding and visibility clauses: (a) every write to Serializer.buffer / the local quoting buffer is an ASCII constant, a whole str, fmt output or the in-order copy of a source byte, no cutting operation is ever applied, "
+        "and in the two byte-copy loops a byte >= 0x80 is always copied unchanged with nothing interleaved (safety of the two from_utf8_unchecked); (b) the unsafe inventory is exactly the three reviewed blocks; "
+        "(c) BOM/@charset are inserted exactly under (non-ASCII, allows_charset[, compressed]) and nothing else reads allows_charset; (d) invisible selectors/statements are filtered before any write. "
+        "NOT decided: balanced braces/strings/comments, absence of Sass-only syntax in values, re-parse idempotence."
+    ),
+    explanation="Clauses C05-a..d of DESIGN.md §3 on MIR/HIR facts of the current tree. NOT decided: well-formedness of the emitted text as CSS, fixed-point behaviour.",
+    assumptions=TRUSTED + ["io::Write for Vec<u8> and core::fmt write whole UTF-8 strs"],
+)
 
 UNBUILT = "check not built yet in this session (design in DESIGN.md §3); not claimed until its rules run clean on the pinned tree"
 NOT_APPLICABLE = {
